@@ -5,7 +5,7 @@ use memterm::screen::Screen;
 use serde_json::json;
 use unicode_width::UnicodeWidthChar;
 
-use crate::explore::{bfs, run_op, sweep, Base, Local, Trans};
+use crate::explore::{bfs, par_map, run_op, sweep, Base, Local, Trans};
 use crate::judge::*;
 use crate::ops::{apply, build, Op, P};
 use crate::props::{gen_bases, geoms, history_tree_j, large_bases, repeat_op, sweep_with_extras, with_poison, Guard};
@@ -45,6 +45,15 @@ pub fn full_alphabet(c: u32, l: u32) -> Vec<Op> {
         Op::Da(None),
         Op::SetTitle("t".into()),
         Op::SetIconName("i".into()),
+        // string arguments the parser never produces but the direct API accepts
+        Op::Draw("".into()),
+        Op::Draw("\n\t\x1b\x07\u{9b}".into()),
+        Op::SetTitle("".into()),
+        Op::SetIconName("".into()),
+        Op::SetTitle("\u{30a2}\u{e9};\\ \u{0}".into()),
+        Op::DefineCharset("".into(), "(".into()),
+        Op::DefineCharset("B".into(), "".into()),
+        Op::DefineCharset("\u{30a2}0".into(), ")x".into()),
     ];
     for code in ["B", "0", "U", "V", "Z"] {
         for slot in ["(", ")"] {
@@ -877,7 +886,42 @@ pub fn c17_judge(c: &Collector, t: &Trans, engine: &str, local: &mut Local) -> b
     };
     local.count("judged");
     if !t.pre.dirty.is_empty() {
-        // only transitions from a state with a cleared dirty set are judged for coverage
+        // marks made since the last clear must survive later operations: every row that differs
+        // from what it was when the set was last cleared (on the path that reached this state) has
+        // to be in the set. Only the net change is demanded, which both readings of "changed" imply.
+        if let Some(idx) = t.script.iter().rposition(|o| matches!(o, Op::ClearDirty)) {
+            let tail = &t.script[idx + 1..];
+            let geometry_fixed = !tail.iter().any(|o| matches!(o, Op::Resize(..))) && !matches!(t.op, Op::Resize(..) | Op::ClearDirty);
+            if geometry_fixed && tail.len() <= 4 && (post.lines, post.columns) == (t.pre.lines, t.pre.columns) {
+                if let Ok(b0) = build(t.columns, t.lines, &t.script[..=idx]) {
+                    let b0 = snap(&b0);
+                    if (b0.lines, b0.columns) == (post.lines, post.columns) {
+                        local.count("since_clear_judged");
+                        for y in 0..post.lines as usize {
+                            // (a mark already missing before this operation is the earlier operation's fault)
+                            let pre_ok = t.pre.grid[y] == b0.grid[y] || t.pre.dirty.contains(&(y as u32));
+                            if pre_ok && post.grid[y] != b0.grid[y] && !post.dirty.contains(&(y as u32)) {
+                                viol(
+                                    c,
+                                    "C17",
+                                    engine,
+                                    t,
+                                    "mark-lost",
+                                    format!(
+                                        "row {} differs from what it was when the dirty set was last cleared ({} operations ago) but dirty = {:?} (it was {:?} before this operation)",
+                                        y,
+                                        tail.len() + 1,
+                                        post.dirty,
+                                        t.pre.dirty
+                                    ),
+                                );
+                                break;
+                            }
+                        }
+                    }
+                }
+            }
+        }
         return expand_ok(t);
     }
     let mut m = Model::new(t.pre);
@@ -948,6 +992,27 @@ pub fn c17(c: &Collector, g: &mut Guard) {
             c17_judge(c, t, "E2.depth1.full", local);
         },
     );
+    // marks survive: change one row, move to every other row, then any operation (an operation
+    // that rebuilds the set instead of adding to it loses the first mark)
+    let step = if c.thorough() { 2 } else { 9 };
+    let mut derived: Vec<Base> = Vec::new();
+    for b in bases.iter().filter(|b| b.lines >= 2).step_by(step) {
+        for first in [Op::Draw("q".into()), Op::Ech(Some(1))] {
+            for y in 1..=b.lines {
+                let mut s2 = b.screen.clone();
+                let tail = vec![first.clone(), Op::Cup(Some(y), Some(1))];
+                if tail.iter().all(|o| apply(&mut s2, o).is_ok()) && !s2.dirty.is_empty() {
+                    let mut script = b.script.clone();
+                    script.extend(tail);
+                    derived.push(Base { columns: b.columns, lines: b.lines, script, screen: s2 });
+                }
+            }
+        }
+    }
+    c.count("marked_then_moved_bases", derived.len() as u64);
+    sweep(c, &derived, |b| full_alphabet(b.columns, b.lines), |c, t, local| {
+        c17_judge(c, t, "E2.depth2.marks-survive", local);
+    });
     let mut lb = large_bases(c, vec![Fill::F0, Fill::F1]);
     for b in lb.iter_mut() {
         b.screen.dirty.clear();
@@ -993,6 +1058,7 @@ pub fn c17(c: &Collector, g: &mut Guard) {
     g.need(c, "screen_wide");
     g.need(c, "rows_changed");
     g.need(c, "bfs_judged");
+    g.need(c, "since_clear_judged");
 }
 
 /// A width change (resize, DECCOLM) must not LOSE a tab stop (a stop that HTS set or the
@@ -1147,10 +1213,15 @@ pub fn c18(c: &Collector, g: &mut Guard) {
                 v.dedup();
                 v
             };
-            for x in xs {
+            for (xi, x) in xs.into_iter().enumerate() {
                 let mut s = s0.clone();
                 let mut sc = script.clone();
-                let tail = if x == w { vec![Op::Cha(Some(w)), Op::Draw("w".into())] } else { vec![Op::Cha(Some(x + 1))] };
+                let mut tail = if x == w { vec![Op::Cha(Some(w)), Op::Draw("w".into())] } else { vec![Op::Cha(Some(x + 1))] };
+                if xi % 2 == 1 {
+                    // tab operations leave rendition and cursor visibility alone: judge them away from the defaults too
+                    tail.push(Op::Rm(vec![25], true));
+                    tail.push(Op::Sgr(vec![1, 31, 44, 7]));
+                }
                 for op in &tail {
                     let _ = apply(&mut s, op);
                 }
@@ -1636,6 +1707,11 @@ pub fn c12(c: &Collector, g: &mut Guard) {
     }
     c.count("bases_132_hidden", extra.len() as u64);
     bases.extend(extra);
+    // "DECSCNM ... marks all rows dirty" can only be observed from a cleared dirty set
+    for b in bases.iter_mut() {
+        b.screen.dirty.clear();
+        b.script.push(Op::ClearDirty);
+    }
     // thin the base set for the exhaustive number sweep
     let nb: Vec<Base> = if c.thorough() { bases.iter().step_by(6).cloned().collect() } else { bases.iter().step_by(3).cloned().collect() };
     c.count("number_sweep_bases", nb.len() as u64);
@@ -1811,6 +1887,7 @@ pub fn c12(c: &Collector, g: &mut Guard) {
     g.need(c, "list_transitions");
     g.need(c, "parser_path_transitions");
     g.need(c, "bases_132_hidden");
+    g.need(c, "reverse_video_switches");
     g.need(c, "bfs_judged");
 }
 
@@ -1956,6 +2033,56 @@ pub fn c16(c: &Collector, g: &mut Guard) {
             c16_judge(c, t, "E2.deccolm-wide", local);
         },
     );
+    // "content that was discarded ... by earlier edits never reappears when the screen grows
+    // again": every content-editing operation (with counts reaching past the edges, under every
+    // rendition of the base states), then a grow in each direction; the cells that appear must be
+    // blank, i.e. no edit may leave anything outside the visible area
+    let step = if c.thorough() { 3 } else { 12 };
+    let eb: Vec<&Base> = bases.iter().step_by(step).collect();
+    let derived: Vec<Vec<Base>> = par_map(eb.len(), |i| {
+        let b = eb[i];
+        let (cc, l) = (b.screen.columns, b.screen.lines);
+        let mut ops: Vec<Op> = vec![Op::Index, Op::ReverseIndex, Op::Linefeed, Op::AlignmentDisplay, Op::Tab, Op::Draw("pq".into()), Op::Draw("\u{30a2}\u{30a2}".into()), Op::Draw("e\u{301}".into())];
+        for p in [None, Some(1), Some(2), Some(cc), Some(cc + 1), Some(l + 1), Some(9999)] {
+            ops.push(Op::Ich(p));
+            ops.push(Op::Dch(p));
+            ops.push(Op::Ech(p));
+            ops.push(Op::Il(p));
+            ops.push(Op::Dl(p));
+        }
+        for h in [None, Some(1), Some(2)] {
+            ops.push(Op::Ed(h));
+            ops.push(Op::El(h));
+        }
+        let mut out = Vec::new();
+        for op in ops {
+            let mut s2 = b.screen.clone();
+            if apply(&mut s2, &op).is_ok() && crate::snapshot::wellformed(&s2).is_empty() {
+                let mut script = b.script.clone();
+                script.push(op);
+                out.push(Base { columns: b.columns, lines: b.lines, script, screen: s2 });
+            }
+        }
+        out
+    });
+    let derived: Vec<Base> = derived.into_iter().flatten().collect();
+    c.count("edit_then_grow_bases", derived.len() as u64);
+    sweep(
+        c,
+        &derived,
+        |b| {
+            let (cc, l) = (b.screen.columns, b.screen.lines);
+            let mut v = vec![Op::Resize(Some(l + 2), Some(cc + 2)), Op::Resize(None, Some(cc + 3)), Op::Resize(Some(l + 1), None)];
+            if b.script.len() % 8 == 0 {
+                v.push(Op::Resize(None, Some(cc + 10000)));
+            }
+            v
+        },
+        |c, t, local| {
+            local.count("edit_then_grow");
+            c16_judge(c, t, "E2.edit-then-grow", local);
+        },
+    );
     // sequences of resizes interleaved with the residue makers
     let depth = if c.thorough() { 4 } else { 3 };
     for gg in [(3u32, 2u32), (2, 3)] {
@@ -2046,6 +2173,7 @@ pub fn c16(c: &Collector, g: &mut Guard) {
     g.need(c, "shrink_lines");
     g.need(c, "grow");
     g.need(c, "resize_after_resize");
+    g.need(c, "edit_then_grow");
     g.need(c, "deccolm");
     g.need(c, "pre_region");
 }
